@@ -81,7 +81,7 @@ theorem standard_errors_abort_iff (se : Row) (sd : Option Row) (fix : FixMap)
     parameter column, nothing for the fixed ones; `parameter_estimates_sdcorr` likewise with the
     entries of row -1000000004 where it has them. -/
 theorem estimates_designated (final sd pe sdc : Row) (fix : FixMap) (cols : List Str)
-    (h : parseEstimates final (some sd) fix cols = .ok (pe, some sdc)) (l : Str) :
+    (h : parseEstimates final (some sd) fix cols = .ok (pe, sdc)) (l : Str) :
     lookupRow pe l = (if cols.contains l && (lookupFix fix l == some true) then none else lookupRow final l)
       ∧ lookupRow sdc l = (lookupRow pe l).map
           (prefer (if notFixed fix l then lookupRow sd l else none)) := by
@@ -91,8 +91,7 @@ theorem estimates_designated (final sd pe sdc : Row) (fix : FixMap) (cols : List
     · cases e2 : maskNotFixed sd fix with
       | error e => simp [parseEstimates, hc1, hc2, e2] at h
       | ok r2 =>
-        simp only [parseEstimates, hc1, hc2, e2, if_true, Except.ok.injEq, Prod.mk.injEq,
-          Option.some.injEq] at h
+        simp only [parseEstimates, hc1, hc2, e2, if_true, Except.ok.injEq, Prod.mk.injEq] at h
         obtain ⟨rfl, rfl⟩ := h
         have a1 := lookupRow_filter
           (fun a => !(cols.filter (fun c => lookupFix fix c == some true)).contains a) l final
@@ -102,6 +101,25 @@ theorem estimates_designated (final sd pe sdc : Row) (fix : FixMap) (cols : List
         · rw [a1]
           cases hc : (cols.contains l && (lookupFix fix l == some true)) <;> simp
         · rw [lookupRow_updateRow, a2]
+    · simp [parseEstimates, hc1, hc2] at h
+  · simp [parseEstimates, hc1] at h
+
+/-- Row -1000000004 absent: `parameter_estimates_sdcorr` is reported for exactly the parameters of
+    `parameter_estimates`, every value missing (NaN) — it is indexed by parameter, not by anything
+    else (df197aa). -/
+theorem estimates_sdcorr_absent_row (final pe sdc : Row) (fix : FixMap) (cols : List Str)
+    (h : parseEstimates final none fix cols = .ok (pe, sdc)) :
+    sdc.map (·.1) = pe.map (·.1) ∧ ∀ p ∈ sdc, p.2 = none := by
+  by_cases hc1 : (cols.all (fun c => (lookupFix fix c).isSome)) = true
+  · by_cases hc2 : ((cols.filter (fun c => lookupFix fix c == some true)).all
+        (fun c => (lookupRow final c).isSome)) = true
+    · simp only [parseEstimates, hc1, hc2, if_true, Except.ok.injEq, Prod.mk.injEq] at h
+      obtain ⟨rfl, rfl⟩ := h
+      constructor
+      · simp [List.map_map, Function.comp]
+      · intro p hp
+        obtain ⟨q, _, rfl⟩ := List.mem_map.mp hp
+        rfl
     · simp [parseEstimates, hc1, hc2] at h
   · simp [parseEstimates, hc1] at h
 
